@@ -9,6 +9,8 @@ theorem staleCmp_is_lt : staleCmp = .lt := by decide
 theorem missingCheck_on : missingCheck = true := by decide
 theorem magicRecheck_on : magicRecheck = true := by decide
 theorem fileRecheck_on : fileRecheck = true := by decide
+theorem recordsFilenameVerbatim_on : recordsFilenameVerbatim = true := by decide
+@[simp] theorem recordedName_eq (n : Nat) : recordedName n = n := by simp [recordedName, recordsFilenameVerbatim_on]
 theorem hookArgs_ok : hookArgsOk = true := by decide
 theorem writerOps_renames : WOp.rename ∈ writerOps := by decide
 theorem tmpInTargetDir_on : tmpInTargetDir = true := by decide
@@ -214,6 +216,7 @@ theorem stepH_good (w : World) (op : HOp) (hop : op.ok) (h : Good w.fs) : Good (
   | replaceMod c m => intro f hf; simp [stepH] at hf; subst hf; exact hop
   | setClock t => exact h
   | construct p => exact construct_good w p hop h
+  | respell n => exact h
 
 theorem runH_good : ∀ (h : List HOp) (w : World), HistOk h → Good w.fs → Good (runH w h).fs := by
   intro h
